@@ -2,12 +2,27 @@ import CelmaVerif.Lemmas.SubGroupsEnd
 import CelmaVerif.Lemmas.SubGroupsCons
 import CelmaVerif.Lemmas.SubGroupsExamples
 import CelmaVerif.Lemmas.SubGroupsCross
+import CelmaVerif.Lemmas.SubGroupsMandatory
+import CelmaVerif.Lemmas.SubGroupsHistory
+import CelmaVerif.Lemmas.SubGroupsWords
 /-
-  C08 (and the mandatory / cardinality clauses of C02) for member handlers with SUB-GROUP
-  ARGUMENTS: the rules attached to a sub-group argument (mandatory flag, cardinality) are enforced
-  at the end of `Groups::evalArguments` for every member exactly as at the end of
-  `Handler::evalArguments` (`Handler::checkMissingMandatoryCardinality()` = both containers).
-  Model: `Model/ProgArgs/SubGroups.lean`.
+  C08 (and the mandatory clause of C02) for member handlers with SUB-GROUP ARGUMENTS.
+  Model: `Model/ProgArgs/SubGroups.lean` (what the driver runs: `evalArgumentsT`, `groupsEvalT`,
+  `groupDefineSeqT`).
+
+  The clauses:
+  * `C02_subgroup_mandatory_missing_refused` / `C08_subgroup_mandatory_missing_refused` — WORD LEVEL, from the
+    initial state: a mandatory sub-group argument to which no element of argv resolves makes the single
+    handler / the group throw.
+  * `C08_subgroup_accepted_history_disjoint`, `C08_subgroup_history_clash_refused` — definition histories
+    (plain and sub-group definitions on the members of a group, the function `pa gdef` runs): accepted ⇒ no two
+    keys of the group clash, over both containers of every member; a clashing definition is refused there.
+  * conservativity (`C08_subgroup_conservative`): members without sub-group arguments = `groupsEval`.
+  DEFINITIONAL / STATE-LEVEL LEMMAS, not clauses: `C08_subgroup_end_checks`, `C08_subgroup_end_checks_standalone`
+  (the two end-check functions make the same four calls), `C02_/C08_subgroup_mandatory_cardinality_partial`
+  (about the state fields, from an arbitrary start state), `C08_subgroup_cross_check` (one pair of handlers).
+  NOT proved for members WITH sub-group arguments: dispatch and the state equivalence group = merged handler
+  (`C08_group_equiv_partial` style); the cardinality of a sub-group argument at word level.
 -/
 namespace CelmaVerif.Props.C08s
 open CelmaVerif CelmaVerif.Keys CelmaVerif.ProgArgs
@@ -20,7 +35,8 @@ theorem C08_subgroup_conservative (cfg : Cfg) (inits : List DVal) (am gm order :
       mapRes treeMembers (groupsEval cfg inits am gm order argv) :=
   groupsEvalT_nil cfg inits am gm order argv
 
-/-- **End checks through the group.**  If `Groups::evalArguments` returns, then for every member
+/-- DEFINITIONAL LEMMA (one unfolding of `groupsEvalT`; not the clause — the clause at word level is
+    `C08_subgroup_mandatory_missing_refused`).  If `Groups::evalArguments` returns, then for every member
     handler: mandatory/cardinality of its plain arguments, mandatory/cardinality of its SUB-GROUP
     arguments, the arguments still required by a constraint, and the end conditions of its handler
     constraints have all passed. -/
@@ -33,7 +49,9 @@ theorem C08_subgroup_end_checks (cfg : TCfg) (inits : TInits) (am sm gm order : 
   intro m hm
   exact (memberEndChecksT_ok_iff m.1 m.2).mp (groupsEvalT_end_checks cfg inits am sm gm order argv ms h m hm)
 
-/-- **… identical to stand-alone evaluation.**  The final checks of `Handler::evalArguments` on a
+/-- DEFINITIONAL LEMMA (the two model functions make the same four calls; nothing here says that a group run
+    reaches the state a stand-alone run reaches — for members with sub-group arguments that is not proved).
+    The final checks of `Handler::evalArguments` on a
     configuration and state return iff the member checks of `Groups` return on the same
     configuration and state (they then only forget the last argument), and they throw the same
     exception: on every state both paths enforce the same rules — in particular the mandatory flag
@@ -44,20 +62,23 @@ theorem C08_subgroup_end_checks_standalone (cfg : TCfg) (t : TState) :
     (∀ e, endChecksT cfg t = .throw e ↔ memberEndChecksT cfg t = .throw e) :=
   ⟨fun t' => endChecksT_ok_iff cfg t t', fun e => endChecksT_throw_iff cfg t e⟩
 
-/-- **C02, stand-alone: an accepted command line used every mandatory sub-group argument and meets
-    the end condition of every sub-group argument's cardinality.**  For every handler tree, state,
-    sources and argv: if `evalArguments` returns, every sub-group argument `j` with the mandatory
+/-- STATE-LEVEL LEMMA, partial (the hypothesis is a run from an ARBITRARY start state `t`, the conclusion is
+    about the state fields `hasValueSet` = `mWasCalled` and `cnt`: from a start state with the flag already
+    up the mandatory argument need not occur in argv.  The mandatory clause at word level, from the initial
+    state, is `C02_subgroup_mandatory_missing_refused`; for the cardinality of a sub-group argument this lemma
+    is all that is proved).  For every handler tree, state, sources and argv: if `evalArguments` returns, every sub-group argument `j` with the mandatory
     flag was identified at least once (`mWasCalled`), and `ICardinality::check()` passes on its
     counter (exact n: 0 or n uses; range lo..: 0 or ≥ lo uses). -/
-theorem C02_subgroup_mandatory_cardinality (cfg : TCfg) (t t' : TState) (src : Sources) (argv : List Word)
+theorem C02_subgroup_mandatory_cardinality_partial (cfg : TCfg) (t t' : TState) (src : Sources) (argv : List Word)
     (h : evalArgumentsT cfg t src argv = .ok t') (j : Nat) (d : SubDef) (st : ArgSt)
     (hd : cfg.subs[j]? = some d) (hs : t'.subArgs[j]? = some st) :
     (d.mandatory = true → st.hasValueSet = true) ∧ d.card.check st.cnt = .ok () :=
   checkSub_ok cfg.subs t'.subArgs ((memberEndChecksT_ok_iff cfg t').mp (evalArgumentsT_end_checks cfg t t' src argv h)).2.1
     j d st hd hs
 
-/-- **C08: the same through a group**, for every member and every sub-group argument it owns. -/
-theorem C08_subgroup_mandatory_cardinality (cfg : TCfg) (inits : TInits) (am sm gm order : List Nat) (argv : List Word)
+/-- STATE-LEVEL LEMMA, partial: the same through a group, for every member and every sub-group argument it owns
+    (conclusion about the state fields; word level: `C08_subgroup_mandatory_missing_refused`). -/
+theorem C08_subgroup_mandatory_cardinality_partial (cfg : TCfg) (inits : TInits) (am sm gm order : List Nat) (argv : List Word)
     (ms : List (TCfg × TState)) (h : groupsEvalT cfg inits am sm gm order argv = .ok ms)
     (m : TCfg × TState) (hm : m ∈ ms) (j : Nat) (d : SubDef) (st : ArgSt)
     (hd : m.1.subs[j]? = some d) (hs : m.2.subArgs[j]? = some st) :
@@ -77,8 +98,8 @@ theorem C02_sub_handler_end_checks_never_run (cfg : TCfg) (t : TState) (subs' : 
   unfold memberEndChecksT checkSubMandatoryCardinality
   rw [hm, hk]
 
-/-- **Defining the same key in two member handlers is refused — over both containers.**
-    `Handler::crossCheckArguments` between two members returns iff no key of the one, plain or
+/-- ONE-PAIR LEMMA (the clause over registration histories is `C08_subgroup_accepted_history_disjoint` /
+    `C08_subgroup_history_clash_refused`).  `Handler::crossCheckArguments` between two members returns iff no key of the one, plain or
     sub-group, clashes (same short key, same long key, or a contradicting pair) with a key of the
     other, plain or sub-group; otherwise it throws `std::invalid_argument`.  (It is run by
     `internAddArgument` and, since `fix:` b870f06, by the definition of a sub-group argument too.) -/
@@ -88,6 +109,144 @@ theorem C08_subgroup_cross_check (ownPlain ownSub otherPlain otherSub : List Key
     (crossCheckHandlers ownPlain ownSub otherPlain otherSub = .throw .invalid_argument ∧
       ∃ a ∈ ownPlain ++ ownSub, ∃ o ∈ otherPlain ++ otherSub, a.Clash o) :=
   crossCheckHandlers_cases ownPlain ownSub otherPlain otherSub
+
+/-! ### the mandatory clause at word level -/
+
+/-- **C02, stand-alone: a mandatory sub-group argument that is not on the command line is refused.**
+    For every handler tree `cfg`, initial destination values, and argv with a program name: evaluated from the
+    state the handler has after its definition (`cfg.initState`), without argument file and environment
+    variable, if sub-group argument `j` is mandatory and NO element of argv is a key that the lookup of
+    `Handler::processArg` over both containers (`findSub`) resolves to `j`, then `evalArguments` throws a
+    std:: exception (never returns, never reads outside argv).
+    "Element of argv" = the element under a cursor of `Reach argv`: `begin()` and every `operator++` from it,
+    also on the copy flagged "the rest of the word is the value" (`Lemmas/SubGroupsMandatory.lean`); `Hits` =
+    its key (`-c`: the character; `--name`: `wordKey name`) is resolved by `findSub` to entry `j` — exact key,
+    or unambiguous abbreviation when the handler allows abbreviations.
+    A model whose `initState` created the sub-group argument as "already used", or whose end check skipped
+    the sub-group container (seeded C08-3 for groups), violates this theorem. -/
+theorem C02_subgroup_mandatory_missing_refused (cfg : TCfg) (inits : TInits) (argv : List Word)
+    (h1 : 1 ≤ argv.length) (j : Nat) (d : SubDef) (hd : cfg.subs[j]? = some d) (hm : d.mandatory = true)
+    (hno : ∀ it, Reach argv it → ¬ Hits cfg j it) :
+    ∃ e, evalArgumentsT cfg (cfg.initState inits) {} argv = .throw e ∧ stdExc e :=
+  evalArgumentsT_mandatory_missing cfg inits argv h1 j d hd hm hno
+
+/-- **C08: the same through a group.**  For every tree, membership (`am`, `sm`, `gm`), registration order and
+    argv: if member `m` is registered, its sub-group argument `j` (index among the sub-group arguments the
+    member owns) is mandatory, and no element of argv is a key that the lookup of THAT member resolves to `j`,
+    then `Groups::evalArguments` throws a std:: exception — whatever the other members do with the words. -/
+theorem C08_subgroup_mandatory_missing_refused (cfg : TCfg) (inits : TInits) (am sm gm order : List Nat)
+    (argv : List Word) (h1 : 1 ≤ argv.length) (m : Nat) (hmo : m ∈ order) (j : Nat) (d : SubDef)
+    (hd : (memberTCfg cfg am sm gm m).subs[j]? = some d) (hm : d.mandatory = true)
+    (hno : ∀ it, Reach argv it → ¬ Hits (memberTCfg cfg am sm gm m) j it) :
+    ∃ e, groupsEvalT cfg inits am sm gm order argv = .throw e ∧ stdExc e :=
+  groupsEvalT_mandatory_missing cfg inits am sm gm order argv h1 m hmo j d hd hm hno
+
+/-- **C02 in the direction of the sentence: an accepted command line names every mandatory sub-group
+    argument.**  If `evalArguments` returns (initial state, no sources), then for every mandatory sub-group
+    argument `j` some element of argv is a key that the handler's lookup resolves to `j`. -/
+theorem C02_subgroup_accepted_names_mandatory (cfg : TCfg) (inits : TInits) (argv : List Word) (t' : TState)
+    (h1 : 1 ≤ argv.length) (hacc : evalArgumentsT cfg (cfg.initState inits) {} argv = .ok t')
+    (j : Nat) (d : SubDef) (hd : cfg.subs[j]? = some d) (hm : d.mandatory = true) :
+    ∃ it, Reach argv it ∧ Hits cfg j it := by
+  refine Classical.byContradiction fun hno => ?_
+  obtain ⟨e, he, _⟩ := evalArgumentsT_mandatory_missing cfg inits argv h1 j d hd hm
+    (fun it hr hh => hno ⟨it, hr, hh⟩)
+  rw [he] at hacc
+  cases hacc
+
+-- `-m -s -a` is accepted, so some element of it resolves to the mandatory `-s` (through the theorem)
+example : ∃ it, Reach (sgArgv ["-m", "-s", "-a"]) it ∧ Hits (sgCfg true) 0 it := by
+  have hok : (sgEval true ["-m", "-s", "-a"]).isOk = true := by decide +kernel
+  cases h : sgEval true ["-m", "-s", "-a"] with
+  | ok t' => exact C02_subgroup_accepted_names_mandatory (sgCfg true) sgInits _ t' (by decide) h 0 sgDef rfl rfl
+  | throw e => rw [h] at hok; cases hok
+  | oob w => rw [h] at hok; cases hok
+-- non-vacuity: `-m --out=x-s v` on `sgCfg` (mandatory `-s,--output`): every hypothesis instantiated — the
+-- cursors of this argv are enumerated (`ReachClosed`, a finite closure check) and none of their elements
+-- resolves to the sub-group argument, although the text `-s` occurs inside a value
+example : ∃ e, sgEval true ["-m", "--out=x-s", "v"] = .throw e ∧ stdExc e :=
+  C02_subgroup_mandatory_missing_refused (sgCfg true) sgInits _ (by decide) 0 sgDef rfl rfl
+    (noHits_of_closed (S := reachList (sgArgv ["-m", "--out=x-s", "v"]) 4) (by decide +kernel) (by decide +kernel))
+-- (through the group the word `--out=…` would not do: in member 1, which owns only `-s,--output`, `out` is an
+-- unambiguous abbreviation of `output` — the known finding `group-abbreviation-shadows-exact`)
+example : ∃ e, sgGroup true [0, 1] ["-m", "x-s"] = .throw e ∧ stdExc e :=
+  C08_subgroup_mandatory_missing_refused (sgCfg true) sgInits [0, 0] [1] [] [0, 1] _ (by decide) 1 (by decide) 0 sgDef
+    rfl rfl
+    (noHits_of_closed (S := reachList (sgArgv ["-m", "x-s"]) 3) (by decide +kernel) (by decide +kernel))
+/-- **… with the hypothesis on the WORDS of argv (no cursor).**  `noKeyText cfg j argv` is a purely syntactic
+    test: in no word of argv (program name and value words included) is a character — or the NUL behind the
+    word — a short key that the lookup resolves to sub-group argument `j`, and for no suffix of a word is the
+    text up to its first `=` (`keyText`) a typed long key (`wordKey`) that the lookup resolves to `j`.  Every
+    key element the cursor can produce is of one of these two forms (`reach_from`), so the test implies the
+    cursor-level hypothesis.  Coarse (a value word containing the short key character fails it), but free of
+    the cursor model. -/
+theorem C02_subgroup_mandatory_missing_refused_words (cfg : TCfg) (inits : TInits) (argv : List Word)
+    (h1 : 1 ≤ argv.length) (j : Nat) (d : SubDef) (hd : cfg.subs[j]? = some d) (hm : d.mandatory = true)
+    (hno : noKeyText cfg j argv = true) :
+    ∃ e, evalArgumentsT cfg (cfg.initState inits) {} argv = .throw e ∧ stdExc e :=
+  evalArgumentsT_mandatory_missing cfg inits argv h1 j d hd hm (noHits_of_noKeyText hno)
+
+theorem C08_subgroup_mandatory_missing_refused_words (cfg : TCfg) (inits : TInits) (am sm gm order : List Nat)
+    (argv : List Word) (h1 : 1 ≤ argv.length) (m : Nat) (hmo : m ∈ order) (j : Nat) (d : SubDef)
+    (hd : (memberTCfg cfg am sm gm m).subs[j]? = some d) (hm : d.mandatory = true)
+    (hno : noKeyText (memberTCfg cfg am sm gm m) j argv = true) :
+    ∃ e, groupsEvalT cfg inits am sm gm order argv = .throw e ∧ stdExc e :=
+  groupsEvalT_mandatory_missing cfg inits am sm gm order argv h1 m hmo j d hd hm (noHits_of_noKeyText hno)
+
+-- `prog -m --main x` on `sgCfg`: no `s`, no `output`-prefix anywhere
+example : ∃ e, sgEval true ["-m", "--main", "x"] = .throw e ∧ stdExc e :=
+  C02_subgroup_mandatory_missing_refused_words (sgCfg true) sgInits _ (by decide) 0 sgDef rfl rfl (by decide +kernel)
+example : ∃ e, sgGroup true [1, 0] ["-m", "--main", "x"] = .throw e ∧ stdExc e :=
+  C08_subgroup_mandatory_missing_refused_words (sgCfg true) sgInits [0, 0] [1] [] [1, 0] _ (by decide) 1 (by decide) 0
+    sgDef rfl rfl (by decide +kernel)
+-- the test is coarse: the value word `x-s` fails it although no element resolves to `-s` (example above)
+example : noKeyText (sgCfg true) 0 (sgArgv ["-m", "x-s"]) = false := by decide +kernel
+-- the hypothesis is needed and can fail: `--outp` (unambiguous abbreviation of `--output`) resolves to the
+-- sub-group argument, and the line is accepted
+example : (match It.begin (sgArgv ["--outp"]) with | .ok it => hitsB (sgCfg true) 0 it | _ => false) = true := by
+  decide +kernel
+example : (sgEval true ["--outp"]).isOk = true := by decide +kernel
+
+/-! ### definition histories over both containers -/
+
+/-- **After every accepted sequence of definitions — plain arguments and sub-group arguments, on any members
+    of a group — no two keys of the group clash.**  `groupDefineSeqT` is the function the driver runs for
+    `pa gdef` (`Handler::addArgument( spec, dest, desc)` / `Handler::addArgument( spec, Handler&, desc)` on
+    handlers obtained from `Groups`: the other container of the handler is asked first, then the own table,
+    then `Groups::crossCheckArguments`).  If it reports no refusal, the tables exist, there are `n` of them,
+    inside every member the table of ALL its keys (`unionTable`, sub-group entries and plain entries) is
+    `Disjoint` — the hypothesis of `C05_exact_wins`, `C05_prefix`, `C05_order_independent` on the union
+    table —, no key of one member (either container) clashes with a key of another member (either container),
+    and the tables hold exactly the defined keys in definition order. -/
+theorem C08_subgroup_accepted_history_disjoint (n : Nat) (defs : List (Nat × Bool × List Char))
+    (hacc : groupDefineSeqT (List.replicate n ([], [])) defs 0 = none) :
+    ∃ tables, groupDefineTablesT (List.replicate n ([], [])) defs = some tables ∧ tables.length = n ∧
+      Tables2Disjoint tables ∧
+      ∀ m, m < n →
+        (tables.getD m ([], [])).1.map (·.1) = definedKeysT defs m false ∧
+        (tables.getD m ([], [])).2.map (·.1) = definedKeysT defs m true :=
+  groupDefineSeqT_accepted_disjoint n defs hacc
+
+/-- **… and a definition whose key clashes with any key defined before — in any container of any member —
+    is refused with `std::invalid_argument` at that definition.**  (`fix:` b870f06: the pinned
+    `Handler::addArgument( spec, subGroup, desc)` made no cross check, a sub-group key already used by another
+    member was accepted; `fix:` 2dd61bc: the same key as plain and sub-group argument of one handler.) -/
+theorem C08_subgroup_history_clash_refused (n : Nat) (defs pre post : List (Nat × Bool × List Char))
+    (m : Nat) (isSub : Bool) (spec : List Char) (k : Key) (tables : List Tables2)
+    (hdefs : defs = pre ++ (m, isSub, spec) :: post)
+    (hpre : groupDefineTablesT (List.replicate n ([], [])) pre = some tables)
+    (hk : Key.parse spec = .ok k)
+    (hclash : ∃ (j : Nat) (t : Tables2), tables[j]? = some t ∧ ∃ e ∈ t.1 ++ t.2, e.1.Clash k) :
+    groupDefineSeqT (List.replicate n ([], [])) defs 0 = some (.invalid_argument, pre.length) :=
+  groupDefineSeqT_clash_refused n defs pre post m isSub spec k tables hdefs hpre hk hclash
+
+-- member 0 defines the plain argument `x,xray`, member 1 the sub-group argument `x`: refused at definition 1
+example : groupDefineSeqT [([], []), ([], [])]
+    [(0, false, ['x', ',', 'x', 'r', 'a', 'y']), (1, true, ['x'])] 0 = some (.invalid_argument, 1) := by decide
+-- an accepted history with a sub-group and a plain definition in one member
+example : groupDefineSeqT [([], []), ([], [])]
+    [(0, true, ['o', ',', 'o', 'u', 't', 'p', 'u', 't']), (0, false, ['o', 'u', 't']), (1, false, ['m'])] 0 = none := by
+  decide
 
 /-! ### non-vacuity: the group of `Lemmas/SubGroupsExamples.lean` (plain arguments in member 0, the
     mandatory sub-group argument `-s,--output` with cardinality range 1..2 in member 1) -/
